@@ -165,7 +165,7 @@ class SchedSim(object):
         self.problems = []          # (property, signature, message)
         self.stats    = {'grants': 0, 'grants_shared_node': 0, 'waited': 0,
                          'canceled_waiting': 0, 'failed_unsched': 0,
-                         'app_placed': 0, 'releases': 0, 'frac_gpu': 0,
+                         'app_placed': 0, 'releases': 0, 'bulk_release': 0, 'frac_gpu': 0,
                          'lfs_mem': 0, 'blocked': 0, 'multi_node': 0,
                          'rpn': 0, 'colo': 0, 'oversize_rejected': 0,
                          'out_of_order_release': 0, 'quiescent_idle': 0,
@@ -603,6 +603,14 @@ class SchedSim(object):
                          % (uid, self._tdsum(td), msg[:200]))
             else:
                 self.labels.add('failed_internal')
+                # ... or when the search itself crashed (a task that fits the idle pilot is
+                # failed because of what the pilot looks like right now)
+                import re
+                m = re.match(r'(TypeError|KeyError|IndexError|AttributeError|ZeroDivisionError|'
+                             r'UnboundLocalError|NameError)\b', msg)
+                if m:
+                    self.bad('C04', 'fitting_task_failed:search_crashed:%s' % m.group(1),
+                             '%s %s failed: %s' % (uid, self._tdsum(td), msg[:300]))
         if not self.per_rank_fits_node(td):
             self.stats['oversize_rejected'] += 1
 
@@ -815,6 +823,24 @@ class SchedSim(object):
             self.stats['out_of_order_release'] += 1
         self._release(live[idx])
 
+    def finish_bulk(self, k, n):
+        """several tasks collected in one executor pass are released with ONE message (a list),
+        as Popen._check_running publishes them"""
+        live = [u for u in self.hold_seq if u in self.holders and not self.holders[u]['app']]
+        if len(live) < 2:
+            return self.finish(k)
+        start = k % len(live)
+        uids = (live[start:] + live[:start])[:max(2, n)]
+        tasks = []
+        for uid in uids:
+            h = self.holders.pop(uid)
+            self.stats['releases'] += 1
+            tasks.append(h['task'])
+        self.stats['bulk_release'] += 1
+        self.skipped.clear()
+        self.pub_unsched.put(rpc.AGENT_UNSCHEDULE_PUBSUB, tasks)
+        self._absorb()
+
     def _release(self, uid):
         h = self.holders.pop(uid)
         self.stats['releases'] += 1
@@ -953,6 +979,8 @@ def run_history(case):
                 sim.submit_app(op[1])
             elif kind == 'finish':
                 sim.finish(int(op[1]))
+            elif kind == 'finish_bulk':
+                sim.finish_bulk(int(op[1]), int(op[2]))
             elif kind == 'cancel':
                 sim.cancel([int(k) for k in op[1]])
             elif kind == 'step':
